@@ -12,6 +12,8 @@ import (
 
 	"github.com/dave/dst"
 	"github.com/dave/dst/decorator"
+	"github.com/dave/dst/decorator/resolver/goast"
+	"github.com/dave/dst/decorator/resolver/guess"
 	"pgregory.net/rapid"
 
 	"verif/internal/gen"
@@ -28,7 +30,10 @@ type Case struct {
 	Ops   []string `json:"ops,omitempty"`
 }
 
-var entryNames = []string{"Parse(string)", "Parse([]byte)", "Parse(io.Reader)", "ParseFile(mode 0)", "ParseFile(AllErrors)", "ParseFile(DeclarationErrors)", "ParseFile(SkipObjectResolution)", "Decorator.Parse (shared fset)", "ParseDir", "Decorator.ParseFile+Restorer.Fprint"}
+var entryNames = []string{"Parse(string)", "Parse([]byte)", "Parse(io.Reader)", "ParseFile(mode 0)", "ParseFile(AllErrors)", "ParseFile(DeclarationErrors)", "ParseFile(SkipObjectResolution)", "Decorator.Parse (shared fset)", "ParseDir", "Decorator.ParseFile+Restorer.Fprint",
+	"Decorator(goast).ParseFile+Restorer(guess).Fprint", "Decorator(goast).ParseDir+Restorer(guess).Fprint", "Parse+Restorer(guess).Fprint"}
+
+const selfPath = "example.com/self"
 
 func check(sub string) func(t h.TB, c Case) {
 	return func(t h.TB, c Case) {
@@ -77,16 +82,40 @@ func check(sub string) func(t h.TB, c Case) {
 			case 9:
 				d := decorator.NewDecorator(token.NewFileSet())
 				f, err = d.ParseFile("x.go", c.Data, parser.ParseComments)
+			case 10:
+				d := decorator.NewDecoratorWithImports(token.NewFileSet(), selfPath, goast.New())
+				f, err = d.ParseFile("x.go", c.Data, parser.ParseComments)
+			case 11:
+				dir, derr := os.MkdirTemp("", "verif-c15-")
+				if derr != nil {
+					t.Fatalf("infrastructure: %v", derr)
+				}
+				defer os.RemoveAll(dir)
+				os.WriteFile(filepath.Join(dir, "a.go"), c.Data, 0o644)
+				os.WriteFile(filepath.Join(dir, "b.go"), []byte("package b\n\nimport \"fmt\"\n\n// ok\nfunc B() { fmt.Println() }\n"), 0o644)
+				var pkgs map[string]*dst.Package
+				pkgs, err = decorator.NewDecoratorWithImports(token.NewFileSet(), selfPath, goast.New()).ParseDir(dir, nil, parser.ParseComments)
+				if err == nil && pkgs == nil {
+					h.Fail(t, sub, c, "ParseDir returned (nil, nil)")
+				}
+				for _, p := range pkgs {
+					for _, pf := range p.Files {
+						files = append(files, pf)
+					}
+				}
+			case 12:
+				f, err = decorator.Parse(c.Data)
 			}
 		})
-		if c.Entry != 8 {
+		if c.Entry != 8 && c.Entry != 11 {
 			if f == nil && err == nil {
 				h.Fail(t, sub, c, "%s returned (nil, nil)", entryNames[c.Entry])
 			}
 			if refErr != nil && err == nil {
 				h.Fail(t, sub, c, "%s returned no error for input that go/parser rejects (%v)", entryNames[c.Entry], refErr)
 			}
-			if refErr == nil && err != nil && c.Entry != 5 {
+			// entry 5 asks for declaration errors; entry 10 may be refused by the syntax-based resolver (property C09)
+			if refErr == nil && err != nil && c.Entry != 5 && c.Entry != 10 {
 				h.Fail(t, sub, c, "%s returned an error for input that go/parser accepts: %v", entryNames[c.Entry], err)
 			}
 			if f != nil {
@@ -100,6 +129,8 @@ func check(sub string) func(t h.TB, c Case) {
 				var buf bytes.Buffer
 				if c.Entry == 9 {
 					_ = decorator.NewRestorer().Fprint(&buf, pf)
+				} else if c.Entry >= 10 {
+					_ = decorator.NewRestorerWithImports(selfPath, guess.New()).Fprint(&buf, pf)
 				} else {
 					_ = decorator.Fprint(&buf, pf)
 				}
@@ -113,6 +144,7 @@ var seeds = []string{
 	"package p\nimport \"", "package p\nvar x = `", "package p\n/*", "package p\nfunc f() { x := [", "\x00", "\xef\xbb\xbf", "\xef\xbb\xbfpackage p",
 	"package p\nfunc f() { switch { case", "package p\ntype T struct { a int `", "package p\nimport ( \"a\" ; ; )", "package p\nfunc (", "package p\nfunc f[T", "package p\n}", "package p\nvar _ = func() {", "package p\nfunc f() { L: }",
 	"package p\nfunc f() { for range", "package p\nfunc f() { select { case <-", "package p\nfunc f() { if x := 1; {", "package p\nconst (\n", "//go:build x\n", "/* */ /* */", "package p\n\n// c\n", "package p\n\n/* c",
+	"package p\nimport ()\n", "package p\nimport foo\n", "package p\nimport \"fm", "package p\n\nimport (\n\t\"a\"\n)\n\nimport ()\n\nimport \"C\"\n\nvar _ = a.X\n", "package p\nimport x 1\nvar _ = x.Y",
 	"package p\nvar x = 08", "package p\nvar x = 1_", "package p\nvar x = '", "package p\nfunc f() { goto }", "package p\nfunc f() { a.. }", "package p\nimport . \"a\"\nimport _ \"a\"\nimport \"a\"",
 }
 
